@@ -189,7 +189,7 @@ func runC16Session(id string, c *c16Case) {
 		devReal, devSim = cliReal, cliSim
 	} else {
 		ncReal, ncSim = c16NCServer(s), c16NCServer(s)
-		devReal, devSim = ncReal, ncDev{ncSim}
+		devReal, devSim = ncReal, ncDev{ncSim, nil}
 	}
 	var peer c16Peer
 	var err error
